@@ -175,6 +175,13 @@ Definition ext (r : env) (s : list (N * expr)) : env :=
                     | None => sc r x
                     end;
      vc := vc r; fn := fn r |}.
+(* several substitution steps made one after the other (the head of the list first): the steps made LATER give the
+   scope in which the terms of the earlier ones are read *)
+Fixpoint ext_chain (r : env) (ss : list (list (N * expr))) : env :=
+  match ss with
+  | [] => r
+  | s :: rest => ext (ext_chain r rest) s
+  end.
 
 (* ---- operators on values (specification of ExpressionScalar.__add__ ... ) ---------------------------------------- *)
 Inductive bop := OpAdd | OpSub | OpMul | OpDiv | OpFloorDiv.
